@@ -16,6 +16,7 @@ import (
 	"fmt"
 	"hash/fnv"
 	"os"
+	"path/filepath"
 	"sort"
 	"strconv"
 	"strings"
@@ -281,6 +282,45 @@ func Fail(t TB, check string, c any, format string, args ...any) {
 	st.lastFail[check] = &Failure{Check: check, Case: raw, Message: msg}
 	mu.Unlock()
 	t.Fatalf("[%s] %s\ncase: %s", check, msg, trunc(string(raw), 2000))
+}
+
+// RaceLogSize returns the total size of the race detector's log files (GORACE log_path=...), so
+// that a test can attribute a report to the plan during which the log grew.
+func RaceLogSize() int64 {
+	var n int64
+	for _, m := range raceLogs() {
+		if st, err := os.Stat(m); err == nil {
+			n += st.Size()
+		}
+	}
+	return n
+}
+
+func raceLogs() []string {
+	pat := ""
+	for _, kv := range strings.Fields(os.Getenv("GORACE")) {
+		if strings.HasPrefix(kv, "log_path=") {
+			pat = strings.TrimPrefix(kv, "log_path=")
+		}
+	}
+	if pat == "" {
+		return nil
+	}
+	ms, _ := filepath.Glob(pat + "*")
+	return ms
+}
+
+// RaceLogTail returns the beginning of the first non-empty race log.
+func RaceLogTail() string {
+	for _, m := range raceLogs() {
+		if b, err := os.ReadFile(m); err == nil && len(b) > 0 {
+			if len(b) > 3000 {
+				b = b[:3000]
+			}
+			return string(b)
+		}
+	}
+	return ""
 }
 
 // FailAndExit records a failure that cannot be reported through the test framework (a call that
